@@ -42,6 +42,8 @@ def val(tag, o, s):
     if tag == 'B':
         if (o, s) == ('o1', 's1'):
             return -1.0                  # cancels A's value for the same pair
+        if o == 'o3':
+            return [2.0, -2.0, 0.0][si]  # a row whose mixed-sign values cancel (its total is 0, it is not empty)
         return 0.0 if (oi * 2 + si) % 4 == 3 else 0.25 + 2 * oi + 8 * si
     return 0.0 if (oi + 2 * si) % 3 == 1 else 100.0 + oi + 10 * si
 
